@@ -232,23 +232,7 @@ func runC12(e *sim.Env) {
 		// the operator's side of a bootstrap: dial the known full node again when
 		// the leaf is alone (the syncer's own loop retries an address only every
 		// five minutes, and every attempt races with the full node's disconnect)
-		leaf, full := l.n, l.full
-		stopRedial := make(chan struct{})
-		e.OnCleanup(func() { close(stopRedial) })
-		go func() {
-			for {
-				select {
-				case <-stopRedial:
-					return
-				case <-time.After(20 * time.Second):
-				}
-				if len(leaf.sy.Peers()) == 0 {
-					ctx, cancel := context.WithTimeout(context.Background(), 5*time.Second)
-					leaf.sy.Connect(ctx, full.addr)
-					cancel()
-				}
-			}
-		}()
+		redialWhenAlone(e, l.n, l.full.addr)
 	}
 	// faults for a while, then none
 	if e.Chance(2, 3) && !static {
